@@ -84,3 +84,33 @@ def run(prog):
     if not ok:
         res.viol("aliases-before-layers", f.loc, "parse_layers can run before parse_aliases: @alias references in layers would be unknown")
     return res
+
+
+def run_template(prog):
+    """R-TPL-ONEPASS (C16): template parameters are substituted in one simultaneous pass over the body."""
+    from kq.analysis import backward_slice
+    res = RuleResult("R-TPL-ONEPASS", "template expansion substitutes all parameters in a single pass", floor=1)
+    f = prog.fn(CFG + "deftemplate::expand")
+    res.fn(f)
+    T = CFG + "deftemplate::Template"
+    visits = blocks_calling(f, f.reachable(), [CFG + "deftemplate::visit_mut_all_atoms"])
+    res.inst("visit_mut_all_atoms-calls", n=len(visits))
+    if not visits:
+        res.viol("anchors", f.loc, "expand no longer walks the template body with visit_mut_all_atoms")
+        return res
+    nexts = [(b, t) for b, t in f.calls() if (callee_name(t) or "").endswith("::next")]
+    for n, (vb, vt) in enumerate(visits):
+        bad = None
+        for (nb, nt) in nexts:
+            # vb inside the loop headed by nb: nb dominates vb and vb can reach nb again
+            if f.dominates(nb, vb) and nb in f.reach_from(vb):
+                flds, _, _ = backward_slice(f, nt["args"][0])
+                if (T, "vars_substitute_names") in flds or (T, "vars") in flds:
+                    bad = nt.get("ln")
+        res.inst("visit#%d" % n, line=vt.get("ln"), inside_parameter_loop=bool(bad))
+        res.oblige(not bad)
+        if bad:
+            res.viol("visit#%d/per-parameter" % n, "%s:%s" % (f.file, vt.get("ln")),
+                     "the template body is re-scanned once per template parameter: text substituted for an earlier parameter is "
+                     "scanned again for later parameter names (variable capture), so indirection through a template changes meaning")
+    return res
